@@ -197,7 +197,10 @@ FAMILIES = {
                        sol=lambda t, y0, a, t0: torch.stack([y0[0] * math.cos(a * (t - t0)) + y0[1] / a * math.sin(a * (t - t0)),
                                                              -a * y0[0] * math.sin(a * (t - t0)) + y0[1] * math.cos(a * (t - t0))]), L=2.0, a=2.0, y0=[1.0, 0.3]),
 }
-GRIDS = {"uniform": [0.0, 0.5, 1.0, 1.5], "ragged": [0.0, 0.01, 0.7, 0.75, 1.9], "decreasing": [1.0, 0.6, 0.55, -0.2], "two": [0.3, 0.9], "long": [0.0, 4.0]}
+GRIDS = {"uniform": [0.0, 0.5, 1.0, 1.5], "ragged": [0.0, 0.01, 0.7, 0.75, 1.9], "decreasing": [1.0, 0.6, 0.55, -0.2], "two": [0.3, 0.9], "long": [0.0, 4.0],
+         # monotone but not strictly: a requested time may be repeated (also as the first interval); times far from the origin with a
+         # spacing that is tiny relative to their magnitude
+         "repeated": [0.0, 0.5, 0.5, 1.2], "repeated-first": [0.3, 0.3, 0.9], "offset": [1000.0, 1000.004, 1000.3, 1000.31], "offset-decreasing": [-500.0, -500.2, -500.201]}
 
 
 def rk_step_ref(func, t0, y0, f0, h, A, B, C):
@@ -220,7 +223,11 @@ class TrySink(object):
         if event != "ark.try":
             return
         t1 = float(f["t1"])
-        tgt = min(range(len(self.tsi)), key=lambda i: abs(self.tsi[i] - t1)) + 1
+        # index of the requested time this trial heads for; a repeated time has several indices: the first one not yet reached
+        dmin = min(abs(x - t1) for x in self.tsi)
+        cands = [i + 1 for i, x in enumerate(self.tsi) if abs(x - t1) == dmin]
+        nxt = getattr(self, "_landed", 0) + 2
+        tgt = nxt if nxt in cands else cands[0]
         t0, h_in, hstep, tnew, h_out = float(f["t0"]), float(f["h_in"]), float(f["hstep"]), float(f["tnew"]), float(f["h_out"])
         acc, over = bool(f["accepted"]), bool(f["t1_achieved"])
         sol = f["solver"]
@@ -243,6 +250,8 @@ class TrySink(object):
                 and bool(torch.allclose(f["fnew"], func(f["tnew"], f["ynew"]), atol=1e-12 * sc, rtol=1e-12))
         if acc:
             self.naccept += 1
+            if over:
+                self._landed = getattr(self, "_landed", 0) + 1
         slack = 4 * 2.3e-16 * max(1.0, abs(t0), abs(t1))       # t0 + (t1 - t0) may differ from t1 by a rounding error
         self.ev.append({"a": "try", "tgt": tgt, "accept": acc, "over": over, "grow": grow, "prev_rejected": bool(f["prev_rejected"]),
                         "stage_ok": stage_ok, "landed_exact": (abs(tnew - t1) <= slack) if over else True, "factor_ok": bool(fac_ok), "not_past": tnew <= t1 + slack})
@@ -253,14 +262,16 @@ def adaptive_case(tid, method, fam, gridname, atol, rtol):
     ts = torch.tensor(GRIDS[gridname], dtype=DT)
     y0 = torch.tensor(F["y0"], dtype=DT)
     a = torch.tensor(F["a"], dtype=DT)
-    tsi = [float(x) for x in (ts if ts[1] > ts[0] else -ts)]
-    sgn = 1.0 if ts[1] > ts[0] else -1.0
+    tsi = [float(x) for x in (ts if ts[-1] > ts[0] else -ts)]
+    sgn = 1.0 if ts[-1] > ts[0] else -1.0
     sink = TrySink(tsi, lambda t, y: sgn * F["f"](sgn * t, y.reshape(y0.shape), a).reshape(-1))
     vh.set_sink(sink)
     exc = None
     try:
-        yt = xitorch.integrate.solve_ivp(F["f"], ts, y0, params=(a,), method=method, atol=atol, rtol=rtol)
-    except Exception as e:
+        from vlib.ctx import TimeLimit
+        with TimeLimit(10):
+            yt = xitorch.integrate.solve_ivp(F["f"], ts, y0, params=(a,), method=method, atol=atol, rtol=rtol)
+    except (Exception, TimeoutError) as e:
         exc = e
     finally:
         vh.set_sink(None)
@@ -409,6 +420,8 @@ def run(ctx):
             for gname in GRIDS:
                 for (atol, rtol) in tols:
                     if method == "rk23" and rtol < 1e-9:
+                        continue
+                    if gname.startswith("repeated") and (atol, rtol) != tols[0]:
                         continue
                     tid += 1
                     traces.append(adaptive_case(tid, method, fam, gname, atol, rtol))
